@@ -178,6 +178,19 @@ def work_histories(seed, n, ids):
             part.case(core.fingerprint(self.steps), len({k for k, _ in self.steps}) > 1 or len(self.steps) > 2, labels=["history", "steps=%d" % min(len(self.steps), 20)],
                       sample=dict(history=self.steps[:10]) if len(part.samples) < 1 else None)
 
+    # deterministic history first: every text of the pool parsed and prettified in order, three passes in this process
+    for rnd in range(3):
+        for i, t in enumerate(pool):
+            out = parse_outcome(t)
+            judge(part, "history", t, out, dict(history=[("pass", rnd), ("parse", i)], text=t[:200]))
+            ref = first.setdefault(("parse", i), out)
+            if ref != out:
+                part.fail("history:parse_result_changes", dict(history=[("pass", rnd), ("parse", i)], text=t[:300]), "parse of the same text differs between pass 0 and pass %d over the pool: first %s, now %s" % (rnd, str(ref)[:150], str(out)[:150]))
+            if rnd < 2:
+                o2 = pretty(t)
+                if first.setdefault(("prettify", i), o2) != o2:
+                    part.fail("history:prettify_changes", dict(history=[("pass", rnd), ("prettify", i)], text=t[:300]), "prettify differs between passes")
+        part.case("pool_pass:%d:%d" % (seed, rnd), True, labels=["history", "full_pass"])
     run_state_machine_as_test(hypothesis.seed(seed)(Machine), settings=settings(max_examples=n, stateful_step_count=20, deadline=None, database=None, suppress_health_check=list(HealthCheck), phases=[hypothesis.Phase.generate]))
     return part
 
